@@ -414,9 +414,15 @@ def run(chk, replay=None):
         # prefer the failing case with the shortest realised schedule
         c, msg = min(oracle_bad, key=lambda cm: (len(all_runs[cm[0].cid].trace), cm[0].cid))
         r = all_runs[c.cid]
-        sched = schedlib.shrink_schedule(r.schedule or [], fails_with(c, lambda cc, rr: oracle(cc, rr) is not None))
-        small = vlib.Case(c.cid, schedlib.set_source(c.header, schedlib.list_source(sched)), c.ops)
-        rr = R.run_impl([small], jobs=1)[small.cid]
+        realised = r.schedule if r.schedule is not None else [ch[1] for ch in r.choices]
+        f = fails_with(c, lambda cc, rr: oracle(cc, rr) is not None)
+        small, rr = c, r
+        if f(realised):
+            sched = schedlib.shrink_schedule(realised, f)
+            cand = vlib.Case(c.cid, schedlib.set_source(c.header, schedlib.list_source(sched)), c.ops)
+            rr2 = R.run_impl([cand], jobs=1)[cand.cid]
+            if oracle(cand, rr2) is not None:
+                small, rr = cand, rr2
         msg2 = oracle(small, rr) or msg
         p = schedlib.write_replay(chk, "oracle_%s.case" % c.cid, "C14 violated on the implementation: %s\n%s" % (
             msg2, "\n".join(rr.lines[-40:])), small.text())
@@ -432,9 +438,15 @@ def run(chk, replay=None):
 
             def pred(cc, rr):
                 return not R.run_model([cc], {cc.cid: rr})[cc.cid].startswith("accepted")
-            sched = schedlib.shrink_schedule(r.schedule or [], fails_with(c, pred), max_tests=80)
-            small = vlib.Case(c.cid, schedlib.set_source(c.header, schedlib.list_source(sched)), c.ops)
-            rr = R.run_impl([small], jobs=1)[small.cid]
+            realised = r.schedule if r.schedule is not None else [ch[1] for ch in r.choices]
+            f = fails_with(c, pred)
+            small, rr = c, r
+            if f(realised):
+                sched = schedlib.shrink_schedule(realised, f, max_tests=80)
+                cand = vlib.Case(c.cid, schedlib.set_source(c.header, schedlib.list_source(sched)), c.ops)
+                rr2 = R.run_impl([cand], jobs=1)[cand.cid]
+                if pred(cand, rr2):
+                    small, rr = cand, rr2
             v2 = R.run_model([small], {small.cid: rr})[small.cid]
             what.append("trace validation C14_Model vs the real class broken: %s (%d of %d traces rejected); the oracle holds on all runs"
                         % (v2 if not v2.startswith("accepted") else v, len(corr_bad), len(all_cases)))
